@@ -50,6 +50,8 @@ CheckDiag(e) ==
     <<"fail-on-VE rejects although reporting records nothing (no base)", e.bs # <<>> \/ ~e.f.fail \/ e.r.fail \/ e.r.ve # <<>>>>,
     <<"error type not from the documented set", ErrOk(e.d) /\ ErrOk(e.r) /\ ErrOk(e.f) /\ ErrOk(e.b)>>,
     <<"an error returned by the default / reporting parser is not marked as a failure", (~e.d.fail \/ e.d.efail) /\ (~e.r.fail \/ e.r.efail)>>,
+    <<"error accessors: Url() of a default-mode error is not the trimmed, tab/newline-free input, or Error() does not mention type and url",
+        ~e.d.fail \/ (e.eurl = <<Preprocess(e.in, FALSE)>> /\ e.emsgok)>>,
     <<"same input, different error type with and without reporting", ~e.d.fail \/ ~e.r.fail \/ e.d.err = e.r.err>>,
     <<"an entry recorded on a successfully parsed URL is marked fatal", e.r.fail \/ \A i \in 1..Len(e.r.ve) : ~e.r.ve[i].fail>>,
     <<"recorded entry has an undocumented type", e.r.fail \/ \A i \in 1..Len(e.r.ve) : e.r.ve[i].type \in DocumentedErrors>>,
@@ -135,7 +137,7 @@ CheckIdem(e) ==
     <<IF ~e.y.fail /\ IsGsbLike(e.prof) /\ HasEmptyPair(e.yp) THEN "not idempotent [F14: stored list has an empty-name/empty-value pair under skip-equals]"
       ELSE IF ~e.y.fail /\ Unfaithful(e.prof, e.yp) THEN "not idempotent [F03: stored list is not faithfully serialized]"
       ELSE "not idempotent",
-      e.y.fail \/ (~e.z.fail /\ e.z.g.href = e.y.g.href)>>
+      ~e.law \/ e.y.fail \/ (~e.z.fail /\ e.z.g.href = e.y.g.href)>>
   >>)
 
 (* ---------------- C18: equivalent spellings canonicalize identically ---------------- *)
